@@ -692,6 +692,59 @@ fn check_set(seed: u64, idx: u64, rep: &mut Report) {
     }
 }
 
+/// Template inputs shared with C12 / C01 (imported names of every spelling style, reference cycles through several
+/// modules): every type name a declaration mentions must be declared in its namespace, imported, or namespace-qualified.
+fn check_templates(seed: u64, n: u64, rep: &mut Report) {
+    for i in 0..n {
+        let srcs = crate::c12::template_sources(seed, i);
+        let run = comp::ts(&srcs);
+        rep.evaluations += 1;
+        let comp::Outcome::Ok { generated, warnings } = &run.out else {
+            rep.count("template_ts_compilations[not Ok]", 1);
+            continue;
+        };
+        if !warnings.is_empty() {
+            rep.count("template_ts_compilations[warnings]", 1);
+            continue;
+        }
+        let origin = format!("templates(seed={seed},idx={i})");
+        let nss = match parse(generated) {
+            Ok(n) => n,
+            Err(e) => {
+                rep.violations.push(Violation { sig: "c18|output-not-well-formed|other".into(), what: format!("TypeScript output is not well-formed ({e}) [{origin}]"), replay: json!({"origin": origin, "sources": srcs}) });
+                continue;
+            }
+        };
+        rep.count("template_cases_judged", 1);
+        rep.nontrivial.insert(hash_str(&srcs.join("|")));
+        let all_ns: BTreeMap<String, &Namespace> = nss.iter().map(|n| (n.name.clone(), n)).collect();
+        for ns in &nss {
+            let declared: BTreeSet<String> = ns.decls.iter().map(|d| d.0.clone()).chain(ns.imports.iter().map(|i| i.0.clone())).collect();
+            for (alias, im, sym) in &ns.imports {
+                rep.count("imports_checked", 1);
+                if !all_ns.get(im).is_some_and(|t| t.decls.iter().any(|d| &d.0 == sym)) {
+                    rep.violations.push(Violation { sig: "c18|import-of-undeclared-symbol".into(), what: format!("{}: import {alias} = {im}.{sym} names nothing that {im} declares [{origin}]", ns.name), replay: json!({"origin": origin, "sources": srcs}) });
+                }
+            }
+            for (dn, d) in &ns.decls {
+                if let Decl::Type(t) = d {
+                    let mut used = BTreeSet::new();
+                    names_in(t, &mut used);
+                    for u in used {
+                        rep.count("type_names_resolved", 1);
+                        let head = u.split('.').next().unwrap_or(&u).to_string();
+                        let ok = BUILTINS.contains(&u.as_str()) || declared.contains(&u) || (u.contains('.') && all_ns.get(&head).is_some_and(|t| t.decls.iter().any(|x| Some(x.0.as_str()) == u.split('.').nth(1))));
+                        if !ok {
+                            let style = if !u.chars().any(|c| c.is_ascii_lowercase()) { if u.chars().any(|c| c.is_ascii_digit()) { "capitals+digits" } else { "capitals" } } else { "mixed-case" };
+                            rep.violations.push(Violation { sig: format!("c18|unresolved-type-name|style={style}"), what: format!("{}.{dn} mentions `{u}`, which is neither declared nor imported [{origin}]", ns.name), replay: json!({"origin": origin, "sources": srcs}) });
+                        }
+                    }
+                }
+            }
+        }
+    }
+}
+
 pub fn run(ctx: &Ctx) -> Report {
     let mut rep = Report::new(
         "exploration",
@@ -716,5 +769,7 @@ pub fn run(ctx: &Ctx) -> Report {
         check_set(seed, i, &mut local);
         acc.with(|r| r.merge(local));
     });
-    acc.into_inner()
+    let mut rep = acc.into_inner();
+    check_templates(seed, ctx.pick(300u64, 4000), &mut rep);
+    rep
 }
